@@ -660,13 +660,7 @@ func (a *Aff) FactsAt(b *ssa.BasicBlock) []Con {
 					out = append(out, a.condCons(ifi.Cond, k == 0)...)
 					out = append(out, a.ensuresFacts(ifi.Cond, k == 0)...)
 					// flag threading (see dominatingFactsD)
-					if src := phiBoolSource(ifi.Cond, k == 0, d); src != nil && src != b {
-						out = append(out, a.FactsAt(src)...)
-						if sif, ok := lastInstr(src).(*ssa.If); ok && len(src.Succs) == 2 && src.Succs[0] != src.Succs[1] {
-							out = append(out, a.condCons(sif.Cond, src.Succs[0] == d)...)
-							out = append(out, a.ensuresFacts(sif.Cond, src.Succs[0] == d)...)
-						}
-					}
+					out = append(out, a.threadFlag(ifi.Cond, k == 0, d, b)...)
 				}
 			}
 		}
@@ -691,6 +685,96 @@ func (a *Aff) FactsAt(b *ssa.BasicBlock) []Con {
 	delete(a.busy, b)
 	if a.hitBusy == hb {
 		a.factMemo[b] = out
+	}
+	return out
+}
+
+// threadFlag: the branch on cond (taken with value val) at the end of d tells
+// which predecessor src control entered d from (phiBoolSourceX).  What held at
+// the end of src then holds now, and every phi of d has its src-edge value.
+// If src -> d is a back edge (d is a loop header), the values defined in d were
+// redefined on re-entry: in the facts taken from src their symbols denote the
+// previous instance and are renamed apart.
+func (a *Aff) threadFlag(cond ssa.Value, val bool, d, b *ssa.BasicBlock) []Con {
+	src, xc, xv := phiBoolSourceX(cond, val, d)
+	if src == nil || src == b {
+		return nil
+	}
+	var old []Con // expressed over the values as they were when control left src
+	old = append(old, a.FactsAt(src)...)
+	if sif, ok := lastInstr(src).(*ssa.If); ok && len(src.Succs) == 2 && src.Succs[0] != src.Succs[1] {
+		old = append(old, a.condCons(sif.Cond, src.Succs[0] == d)...)
+		old = append(old, a.ensuresFacts(sif.Cond, src.Succs[0] == d)...)
+	}
+	if xc != nil {
+		old = append(old, a.condCons(xc, xv)...)
+		old = append(old, a.ensuresFacts(xc, xv)...)
+	}
+	type pair struct{ phi, edge *Lin }
+	var pairs []pair
+	for pi, pp := range d.Preds {
+		if pp != src {
+			continue
+		}
+		for _, ins := range d.Instrs {
+			phi, ok := ins.(*ssa.Phi)
+			if !ok {
+				break
+			}
+			e := phi.Edges[pi]
+			if isInteger(phi.Type()) {
+				pairs = append(pairs, pair{a.Lin(phi), a.Lin(e)})
+			} else if _, isSl := phi.Type().Underlying().(*types.Slice); isSl {
+				pairs = append(pairs, pair{a.LenOf(phi), a.LenOf(e)})
+			}
+		}
+		break
+	}
+	rn := func(l *Lin) *Lin { return l }
+	if d.Dominates(src) {
+		ren := map[string]string{}
+		mark := func(v ssa.Value, s string, isLen bool) {
+			ins, ok := v.(ssa.Instruction)
+			if !ok || ins.Block() != d {
+				return
+			}
+			p := s + "@prev"
+			ren[s] = p
+			if isLen {
+				a.symLen[p] = true
+			} else if t, ok := a.symType[s]; ok {
+				a.symType[p] = t
+			}
+			a.desc[p] = "previous instance of " + s
+		}
+		for v, s := range a.names {
+			mark(v, s, false)
+		}
+		for v, s := range a.lenName {
+			mark(v, s, true)
+		}
+		rn = func(l *Lin) *Lin {
+			n := NewLin()
+			n.C.Set(l.C)
+			for s, v := range l.T {
+				if t, ok := ren[s]; ok {
+					s = t
+				}
+				if cur, ok := n.T[s]; ok {
+					cur.Add(cur, v)
+				} else {
+					n.T[s] = new(big.Rat).Set(v)
+				}
+			}
+			return n
+		}
+	}
+	var out []Con
+	for _, c := range old {
+		out = append(out, Con{rn(c.L)})
+	}
+	for _, p := range pairs {
+		out = append(out, EQ(p.phi, rn(p.edge))...)
 	}
 	return out
 }
